@@ -326,9 +326,29 @@ def est_size(t):
 def small_decl(rng, passing=True):
     """mostly aggregates of at most 16 bytes (they travel in registers), about a third larger ones"""
     while True:
-        t = small_decl0(rng)
+        t = straddle_candidate(rng) if rng.random() < 0.04 else small_decl0(rng)
         if est_size(t) <= 16 or rng.random() < 0.22:
             return t
+
+
+def straddle_candidate(rng):
+    """an unnamed bit-field inside an under-aligned member aggregate at an odd offset, so that it can reach
+    over the eightbyte boundary (coq/C08/SpanClassify.v), followed by floating-point data"""
+    r = rng
+    head = r.choice([('n', ('b', 'int')), ('n', ('b', 'float')), ('n', ('a', r.choice([3, 5, 6, 7]), ('b', 'char'))),
+                     ('n', ('b', 'short')), ('f', r.choice([3, 17, 31]), ('b', 'int'))])
+    inner = []
+    if r.random() < 0.6:
+        inner.append(('n', ('b', r.choice(['char', 'uchar', 'bool']))))
+    bt = ('b', r.choice(['long', 'ulong', 'llong', 'int', 'short']))
+    bits = 8 * KSIZE[bt[1]]
+    inner.append(('g', r.choice([bits, bits - 7, bits // 2 + 1, 9, r.randint(1, bits)]), bt))
+    if r.random() < 0.3:
+        inner.append(('n', ('b', 'char')))
+    ms = [head, (r.choice('no'), ('s', inner))]
+    if r.random() < 0.8:
+        ms.append(('n', ('b', r.choice(['float', 'float', 'double', 'char']))))
+    return ('s', ms)
 
 
 def small_decl0(rng, passing=True):
